@@ -434,6 +434,17 @@ fn engine_faults(args: &Args) -> i32 {
                         &mut nviol,
                     );
                 }
+                // absurd over-reports whose size computation overflows: refused with a panic before anything is written
+                if site != 3 && (actual == 0 || actual == 3) {
+                    let sz = std::mem::size_of::<tk::T8>();
+                    for rep in [usize::MAX, usize::MAX / sz + 2, usize::MAX / sz + 1, usize::MAX / 2 + 1, isize::MAX as usize / sz + 1] {
+                        run(
+                            faults::iter_lies(site, actual, vec![rep], &mut st),
+                            format!("lie site={} actual={} rep={:#x}", site, actual, rep),
+                            &mut nviol,
+                        );
+                    }
+                }
                 // answers that change between calls
                 for (a, b) in [
                     (0i64, 1i64),
